@@ -136,7 +136,7 @@ Proof.
       destruct (rep && (f_len f <=? max_buffered)).
       * eapply same_id_trans; [exact H3|]. unfold reader_dies. same_id_tac.
       * eapply same_id_trans; [exact H3|]. eapply same_id_trans; [apply run_handler_same_id|].
-        unfold reader_dies. same_id_tac.
+        unfold eof_after_dispatch, reader_dies. same_id_tac.
   - (* ConnFirst *) apply id_inv_same; [exact Hq| |exact Hinv]. cbn [step]. unfold step_conn_first.
     destruct (phase s); try (split; reflexivity).
     destruct (max_buffered <? f_len f); [unfold init_fail; same_id_tac|].
